@@ -1,5 +1,3 @@
-CONSTANT MaxLen = 4
 INIT Init
 NEXT Next
-INVARIANT Inv
 CHECK_DEADLOCK FALSE
